@@ -38,6 +38,12 @@ def query_space(g: G, tier):
         for c in one:
             if (o[0], o[1]) != (c[0], c[1]):
                 yield (o,), (c,)
+    # factual queries with two conditions or two outcomes over distinct variables, in both listing orders
+    fact = event_items(g.nodes, 0)
+    for a, b, c in itt.permutations(fact, 3):
+        if len({a[0], b[0], c[0]}) == 3:
+            yield (a,), (b, c)
+            yield (a, b), (c,)
     if tier == "thorough":
         zero = event_items(g.nodes, 1)
         for o1, o2 in itt.combinations(zero, 2):
@@ -57,7 +63,8 @@ def shards(tier):
 def describe(tier):
     return {
         "bound": (
-            "graphs O(1..3); one outcome item and one condition item, each with up to 1 subscript"
+            "graphs O(1..3); one outcome item and one condition item, each with up to 1 subscript; factual queries with two "
+            "conditions or two outcomes in both listing orders"
             if tier == "quick"
             else "graphs L(1..3); (outcome with up to 2 subscripts | condition with up to 1) and (two outcomes with up to 1 "
             "subscript | factual condition)"
@@ -128,9 +135,10 @@ def check_query(res: Res, g: G, yg, m, outs, conds, case):
             return None
         return tuple(j / c for j, c in zip(p_joint[k], pc))
 
-    out = judge_expression(
-        res, est, joint_items, g, m, m, case, finding=classify(joint_items, set(TRIGGERS), probes_ok), fkey=fkey, truth_fn=truth
-    )
+    cls = classify(joint_items, set(TRIGGERS), probes_ok)
+    if cls is None and len(conds) > 1:
+        cls = "rule2_ignores_other_conditions"
+    out = judge_expression(res, est, joint_items, g, m, m, case, finding=cls, fkey=fkey, truth_fn=truth)
     res.outcomes["estimand_" + out] += 1
 
 
